@@ -34,7 +34,8 @@ def scenarios(flavour, n, max_edges, methods):
             for j, (u, v) in enumerate(seq):
                 pre.append(['connect', n + v, n + u, {'s': f'e{j}'}])
             for root in roots_for(seq, n):
-                tgts = targets_for(seq, n, root) if (step == 'search' and mode in ('search', 'path')) else [None]
+                # the target may be the root itself: transposed and plain search must then agree as well
+                tgts = (targets_for(seq, n, root) + [root]) if (step == 'search' and mode in ('search', 'path')) else [None]
                 for tgt in tgts:
                     for method in methods:
                         def spec(tr, off):
